@@ -200,6 +200,6 @@ func (u Union) Generate(w io.Writer, settings GenerateSettings) {
 	u.generateEncodeBebop(ew, settings, fields)
 	u.generateDecodeBebop(ew, settings, fields)
 	u.generateSize(ew, settings, fields)
-	isEmpty := len(u.Fields) == 0
-	writeWrappers(ew, u.Name, isEmpty, settings)
+	// a union always has a length prefix, even without branches
+	writeWrappers(ew, u.Name, false, settings)
 }
